@@ -1512,6 +1512,13 @@ cdef class NNPS(NNPSBase):
             for cache in self.cache:
                 cache.update()
 
+        # (Re-)establish the current context.  The binning structures may
+        # have been re-allocated above, so any pointers cached by a previous
+        # set_context are stale, and before the first update no context has
+        # been set at all although src_index/dst_index read as (0, 0).
+        if self.narrays > 0:
+            self.set_context(self.src_index, self.dst_index)
+
     cdef void get_nearest_neighbors(self, size_t d_idx, UIntArray nbrs) noexcept nogil:
         if self.use_cache:
             self.current_cache.get_neighbors_raw(d_idx, nbrs)
